@@ -257,6 +257,43 @@ def _infer_set(
     return result
 
 
+def _path_is_injective(
+    ir: irast.Set,
+    *,
+    ctx: inf_ctx.InfCtx,
+) -> bool:
+    """Check that a path maps distinct roots to disjoint sets.
+
+    The path itself is a proper set for every element of its root,
+    but the union over the elements of a distinct iterator is only
+    disjoint if no two sources can reach the same target, i.e. if
+    every outbound pointer on the way is exclusive and every backlink
+    is followed over a single pointer.
+    """
+    schema = ctx.env.schema
+    cur = ir
+    while isinstance(cur.expr, irast.Pointer):
+        ptr = cur.expr
+        ptrref = ptr.ptrref
+        if isinstance(ptrref, irast.TypeIntersectionPointerRef):
+            # A subset of the source.
+            pass
+        elif isinstance(ptrref, irast.PointerRef):
+            pointer = schema.get_by_id(
+                ptrref.id, default=None, type=s_pointers.Pointer)
+            if pointer is None:
+                return False
+            if ptr.direction is s_pointers.PointerDirection.Outbound:
+                if not pointer.is_exclusive(schema):
+                    return False
+            elif not pointer.singular(schema):
+                return False
+        else:
+            return False
+        cur = ptr.source
+    return True
+
+
 def _infer_set_inner(
     ir: irast.Set,
     *,
@@ -325,6 +362,7 @@ def _infer_set_inner(
     if (
         not path_mult.is_duplicate()
         and irutils.get_path_root(ir).path_id == ctx.distinct_iterator
+        and _path_is_injective(ir, ctx=ctx)
     ):
         path_mult = dataclasses.replace(path_mult, disjoint_union=True)
 
